@@ -1,7 +1,12 @@
 import GV.Lib.Line
 import GV.Model.Vrf
+import GV.Model.VrfSym
 /-
-  op:  vrf pv <seedhex> <alphahex>                      prove, verify, compare outputs
+  op:  vrf x <seedhex> <oseedhex> <alphahex> <oalphahex> <case>
+                                                        ORACLE TIE: the intermediate values of the real prover
+                                                        and verifier (trace hook), named with edwards25519
+                                                        operations, against the model run on the free module
+       vrf pv <seedhex> <alphahex>                      prove, verify, compare outputs
        vrf flip <seedhex> <alphahex> <proof|pk|msg|out> <byte> <bit>     TEST: single-bit flip
        vrf noncanon <seedhex> <alphahex>                genuine proof with s replaced by s + L
        vrf smallorder <i> <seedhex> <alphahex>          i-th small-order key encoding, genuine proof of another key
@@ -29,8 +34,51 @@ def verdict (r : Except VErr Int) (expected : Option Int) : String :=
   | .error .nonCanonicalS => "v=0 err=noncanon"
   | .error .verificationFailed => "v=0 err=verify"
 
+open GV.Model.VrfSym in
+/-- the oracle-tied op: model on the free module, values printed by the shared vocabulary -/
+def handleX (seed oseed alpha oalpha cse : String) : Out :=
+  match parseHex? seed, parseHex? oseed, parseHex? alpha, parseHex? oalpha with
+  | some sd, some od, some _, some _ =>
+    if sd.length ≠ 32 ∨ od.length ≠ 32 ∨ seed = oseed ∨ alpha = oalpha then badOp else
+    let pt := proveTrace sym 0 0
+    let pr := prove sym 0 0
+    let gam := Pt.smul X ptH
+    let s1 := K.add (C1.mul X)
+    let s2 := K2.add (C2.mul X)
+    -- (key, proof, message) handed to the verifier
+    let job : Option (Pt × Proof Pt Poly × Nat) := match cse with
+      | "honest" => some (pt.y, pr.1, 0)
+      | "altnonce" => some (pt.y, { gamma := gam, c := C2, s := s2 }, 0)
+      | "mix" => some (pt.y, { gamma := gam, c := C1, s := s2 }, 0)
+      | "splus1" => some (pt.y, { gamma := gam, c := C1, s := s1.add (const 1) }, 0)
+      | "gammaKH" => some (pt.y, { gamma := Pt.smul K ptH, c := C1, s := s1 }, 0)
+      | "gammaY" => some (pt.y, { gamma := Pt.smul X ptB, c := C1, s := s1 }, 0)
+      | "otherkey" => some (pkOf sym 1, pr.1, 0)
+      | "othermsg" => some (pt.y, pr.1, 1)
+      | "otherproof" => some (pt.y, (prove sym 1 0).1, 0)
+      | _ => none
+    match job with
+    | none => badOp
+    | some (y, pi, m) =>
+      let r := verifyAndHash sym y pi m
+      let vt := verifyTrace sym y pi m
+      let (okS, outS) := match r with
+        | .ok o => ("1", if o == pr.2 then "same" else "diff")
+        | .error _ => ("0", "-")
+      let model := s!"ok={okS} out={outS} | P: Y={nameP pt.y} H={nameP pt.h} G={nameP pt.gamma} k={nameS pt.k} U={nameP pt.u} V={nameP pt.v} c={nameS pt.c} s={nameS pt.s} | V: H={nameP vt.h} U={nameP vt.u} V={nameP vt.v} c'={nameS vt.c'}"
+      -- the property: the genuine proof verifies with the prover's output; a changed proof,
+      -- message or key fails.  A different *valid* proof made with the secret key (another nonce)
+      -- is not a "changed bit" of this one: no demand.
+      let spec := match cse with
+        | "honest" => "ok=1 out=same *"
+        | "altnonce" => "*"
+        | _ => "ok=0 *"
+      { model := model, spec := spec }
+  | _, _, _, _ => badOp
+
 def handle (line : String) : Out :=
   match tokens line with
+  | ["vrf", "x", seed, oseed, alpha, oalpha, cse] => handleX seed oseed alpha oalpha cse
   | ["vrf", "pv", seed, alpha] =>
     match parseHex? seed, parseHex? alpha with
     | some sd, some al =>
